@@ -22,7 +22,8 @@ KINDS = ['mod', 'link', 'add', 'unlink', 'savepoint', 'rollback', 'commit',
 def make_spec(cfg):
     return dict(kinds=cfg.get('kinds') or KINDS,
                 objects=cfg.get('objects', ('a', 'n')),
-                max_handles=cfg.get('max_handles', 2))
+                max_handles=cfg.get('max_handles', 2),
+                rival_with_savepoints=cfg.get('rival', False))
 
 
 def build(cfg, hist, spec):
@@ -77,7 +78,10 @@ def run(rep, tier, seed, workers):
         'all sequences up to the depth over {modify a / n, rewrite the blob '
         'B (FileStorage with a blob directory), link n, add n, '
         'unlink n, savepoint (at most 2 live handles; 3 thorough), rollback '
-        'to any live handle, commit, abort} on a real connection; after '
+        'to any live handle, commit, abort} on a real connection, and over '
+        '{modify a / b, savepoint, rollback, rival commit to a (our commit '
+        'then conflicts), commit with another participant failing in its '
+        'vote, commit, abort}; after '
         'every step ownership and value of every tracked object, root '
         'membership, the records stored by a commit and the observer\'s view '
         'are compared with the model; non-trivial = sequence containing a '
@@ -88,6 +92,12 @@ def run(rep, tier, seed, workers):
             # blob writes: an existing blob next to a plain and a new object
             dict(prop='C12', kind='Fb', d=depth - 1,
                  objects=('a', 'n', 'B'), kinds=KINDS + ['bwrite'])]
+    # a commit that fails (conflict with a rival, another participant's
+    # vote) after savepoints: two existing objects
+    plan.append(dict(prop='C12', kind='M', d=depth - 1, rival=True,
+                     objects=('a', 'b'),
+                     kinds=['mod', 'savepoint', 'rollback', 'rival', 'commit',
+                            'commit-vote-fail', 'abort']))
     if tier != 'quick':
         plan.append(dict(prop='C12', kind='M', d=depth - 1,
                          objects=('a', 'n', 'm'), max_handles=3))
@@ -96,7 +106,8 @@ def run(rep, tier, seed, workers):
         fps = seqx.explore(rep, MOD, cfg, d, workers, seed, split=3)
         states += len(fps)
         rep.bounds['%s%s depth' % (cfg['kind'], '/3obj' if cfg.get(
-            'max_handles') else '')] = d
+            'max_handles') else '/failing commits' if cfg.get('rival')
+            else '')] = d
     rep.cov['states'] = max(states, 1)
     rep.assumptions = [
         'the in-memory attributes of an object that belongs to no database '
